@@ -288,6 +288,9 @@ def w_g1(args):
     which, quick, lo, hi = args
     r = core.Res()
     for code in range(lo, hi):
+        if core.expired():
+            r.caps.append('deadline reached inside a chunk')
+            break
         G, classes = U.k1_classes(code)
         for start, wf, nr in classes:
             r.ctr['g1_classes'] += 1
